@@ -162,7 +162,7 @@ class BaseFileWriterSession(BaseWriterSession):
         '''
         new_filename = filename + '-new'
 
-        with open('wb') as new_file:
+        with open(new_filename, 'wb') as new_file:
             new_file.write(response.header())
 
             with wpull.util.reset_file_offset(response.body):
